@@ -35,7 +35,7 @@ from .ncpmodel import STATUS, St
 from .props.c13 import BROADCAST, MULTICAST, UNICAST, enc_aps, enc_incoming, enc_tcjoin
 
 COMPONENTS = e3app.COMPONENTS
-VERSIONS = (4, 5, 7, 8, 9, 12, 13, 14)
+VERSIONS = tuple(range(4, 15))
 FAIL_KINDS = ("none", "none", "error", "rstack", "lost", "eof", "silent")
 PROBES = ["soak.epochs", "soak.reconnect_other_version", "soak.fail.error", "soak.fail.rstack", "soak.fail.lost", "soak.fail.eof", "soak.fail.silent", "soak.fail.none",
           "soak.send.success", "soak.send.failure", "soak.send.never", "soak.send.cut_by_failure", "soak.incoming", "soak.join", "soak.leave", "soak.mc_subscribe",
